@@ -10,21 +10,24 @@
    x@u55           the same model compiled by main() with --accelerator-config ethos-u55-128
    x+dbg           the same model compiled by main() with --enable-debug-db --verbose-performance: two more
                    files are written, <net>_debug.xml from the process-wide DebugDatabase tables
+   deepA           a chain of several hundred elementwise operators: compiles only under a raised recursion limit
+   convA+rl        convA compiled by main() with --recursion-limit 1000 (the interpreter's default: fine for convA)
    convert / convert_bytes have fixed options (ethos-u65-256), so only main() has the @ and + letters.
    convert_bytes receives a bytearray it never sees again (container "ba"); for padNC it receives the
    bytearray the caller keeps ("shared"), a writable memoryview of it ("mvrw") and a read-only
    memoryview ("mvro"); padNC reaches the file-reading entry points through main() only. *)
 EXTENDS History
 
-Default == {"convA", "meanA", "meanB", "tanhA", "tanhB", "hcA", "padNC"}
+Default == {"convA", "meanA", "meanB", "tanhA", "tanhB", "hcA", "padNC", "deepA"}
 Other == {"convA@u55", "meanA@u55", "tanhA@u55"}
 Debug == {"convA+dbg"}
-AllMO == Default \cup Other \cup Debug
+LowRec == {"convA+rl"}
+AllMO == Default \cup Other \cup Debug \cup LowRec
 MCLetters == {[e |-> "main", mo |-> mo, c |-> "file"] : mo \in Default}
         \cup {[e |-> "convert", mo |-> mo, c |-> "file"] : mo \in Default \ {"padNC"}}
         \cup {[e |-> "convert_bytes", mo |-> mo, c |-> "ba"] : mo \in Default \ {"padNC"}}
         \cup {[e |-> "convert_bytes", mo |-> "padNC", c |-> c] : c \in {"shared", "mvrw", "mvro"}}
-        \cup {[e |-> "main", mo |-> mo, c |-> "file"] : mo \in Other \cup Debug}
+        \cup {[e |-> "main", mo |-> mo, c |-> "file"] : mo \in Other \cup Debug \cup LowRec}
 
 MCVK == [mo \in AllMO |->
            CASE mo \in {"meanA", "meanB", "meanA@u55"} -> {"ones32", "zeros8"}
@@ -33,9 +36,12 @@ MCVK == [mo \in AllMO |->
 MCWK == [mo \in AllMO |->
            IF mo \in {"meanA", "meanB", "meanA@u55"} THEN {"dw/8/ones32"} ELSE {}]
 MCAcc == [mo \in AllMO |-> IF mo \in Other THEN "u55-128" ELSE "u65-256"]
-MCOpt == [mo \in AllMO |-> IF mo \in Debug THEN {"ddb"} ELSE {}]
+MCOpt == [mo \in AllMO |-> IF mo \in Debug THEN {"ddb"} ELSE IF mo \in LowRec THEN {"lowrec"} ELSE {}]
+MCNeeds == [mo \in AllMO |-> IF mo = "deepA" THEN {"rec"} ELSE {}]
+MCEst == [e \in Entries |-> {"rec"}]                                      \* as transcribed: every entry point raises the limit
+MCEstNoConvert == [e \in Entries |-> IF e = "convert" THEN {} ELSE {"rec"}]  \* control: one entry point relies on the others
 MCMdl == [mo \in AllMO |->
-           CASE mo \in {"convA", "convA@u55", "convA+dbg"} -> "convA"
+           CASE mo \in {"convA", "convA@u55", "convA+dbg", "convA+rl"} -> "convA"
              [] mo \in {"meanA", "meanA@u55"} -> "meanA"
              [] mo \in {"tanhA", "tanhA@u55"} -> "tanhA"
              [] OTHER -> mo]
